@@ -100,6 +100,14 @@ def cases(tier, seed):
                                    "open": "handle", "keys": [list(p) for p in pairs[part:part + 100]]}
 
 
+    # bounds beyond the table and reversed ranges (array semantics: clipping, empty) - observed separately, known finding F29
+    n = 4
+    S = lambda a, b: {"kind": "slice", "a": [] if a is None else [a], "b": [] if b is None else [b]}
+    oob = [S(-n - 3, 2), S(1, n + 5), S(None, -n - 2), S(n + 4, None), S(-n - 6, -n - 1), S(3, 1), S(-1, 1), S(n + 1, n + 3)]
+    for mode in ("symm", "square"):
+        px = gen.random_store(rng, n, mode, density=0.8)
+        yield "rq.slice", {"n": n, "mode": mode, "px": px, "chunk": 10 ** 7, "open": "handle", "keys": [[S(0, 2), S(1, None)]],
+                           "oob_keys": [[a, b] for a in oob for b in (S(None, None), S(1, 3), oob[1])]}
     # indexes given as NumPy scalars of a narrow dtype at the top of its range (a matrix with more than 127 bins)
     n = 130
     for mode in ("symm", "square"):
@@ -115,6 +123,16 @@ def cases(tier, seed):
 
 def nontrivial(drv, case, obs):
     return len(case["px"]) > 0
+
+
+F29_KEY = "C03:F29:slice bounds beyond the table and reversed ranges are not resolved as for arrays"
+
+
+def keyfn(ev, clauses):
+    if clauses == ["outOfRangeBoundsAsArrays"]:
+        return F29_KEY
+    import json
+    return f"{ev['drv']}:{','.join(clauses)}:{json.dumps(ev['case'], sort_keys=True)}"
 
 
 def run(tier, seed, only_case=None):
@@ -140,5 +158,5 @@ def run(tier, seed, only_case=None):
         r.record(TRACE, drv, case, obs, nontrivial(drv, case, obs))
     r.extra["queries"] = nq
     r.exhaustive = False
-    r.validate(TRACE)
+    r.validate(TRACE, keyfn=keyfn)
     return r.finish()
